@@ -29,7 +29,7 @@ ASSUMPTIONS = ['exactly one thread runs at a time under the baton scheduler; swi
                'hook wrappers around ply.lex.Lexer.input/token/clone only yield to the scheduler',
                'an engine is reused between executions; every reported violation is first replayed twice on a fresh engine']
 BOUNDS = {
-    'quick': 'E2: 14 texts x 3 engine kinds to fixpoint; E1: all pairs of 8 texts, all interleavings when <= 15000 else preemption bound 3; '
+    'quick': 'E2: 14 texts x 3 engine kinds to fixpoint; E1: all pairs of 8 texts, all interleavings when <= 4000 else preemption bound 3; '
              'all 3-multisets of 4 texts with preemption bound 2; line-granularity bound 1 for 3 ordered pairs on a warm engine and 1 pair on a fresh engine per schedule',
     'thorough': 'E2: 40 texts x 3 engine kinds; E1: all pairs of 16 texts, all interleavings when <= 400000 else bound 4; 3 threads exhaustive '
                 'where <= 60000 schedules else bound 3; two-text thread bodies; line-granularity bound 1 for all ordered pairs of 12 texts; yaql.eval path',
@@ -539,7 +539,7 @@ def jobs(tier, seed):
         out.append(('hist-' + kind, 'job_histories', (kind, texts, 4 if quick else 5)))
     e1 = E1_TEXTS_Q if quick else E1_TEXTS_T
     pairs = [((a,), (b,)) for a, b in itertools.combinations_with_replacement(e1, 2)]
-    full_limit = 15000 if quick else 400000
+    full_limit = 4000 if quick else 400000
     nshard = 24 if quick else 48
     for i in range(nshard):
         part = pairs[i::nshard]
